@@ -171,7 +171,7 @@ func genScenario(cfg ScenarioCfg) *rapid.Generator[Scenario] {
 		cfg.FitnessKinds = allFitnessKinds
 	}
 	if len(cfg.Ctors) == 0 {
-		cfg.Ctors = []string{"spawn", "spawn", "spawn", "random", "read", "reread"}
+		cfg.Ctors = []string{"spawn", "spawn", "spawn", "random", "read", "reread", "file"}
 	}
 	return rapid.Custom(func(t *rapid.T) Scenario {
 		sc := Scenario{Ctor: rapid.SampledFrom(cfg.Ctors).Draw(t, "constructor"), Start: gg.Draw(t, "start"),
@@ -270,6 +270,29 @@ func buildPopulation(sc Scenario, opts *neat.Options) (*genetics.Population, err
 			if len(o.Genotype.Genes) == 0 {
 				return nil, errSkipScenario // gene-less start genomes are outside every property's quantifier
 			}
+		}
+		return pop, nil
+	case "file":
+		// a population file written by hand: every genome is the start genome with other weights, none of them went through
+		// the library's duplicate (a start genome may carry structure that spawning would have to copy: hidden nodes that no
+		// gene touches yet, disabled genes, nodes without traits)
+		var buf bytes.Buffer
+		for i := 0; i < opts.PopSize; i++ {
+			s := sc.Start
+			s.Id = i + 1
+			s.Genes = append([]GeneSpec(nil), sc.Start.Genes...)
+			for k := range s.Genes {
+				d := 0.25 * float64((i+k)%4)
+				s.Genes[k].W += d
+				s.Genes[k].Mut += d
+			}
+			if err := s.Build().Write(&buf); err != nil {
+				return nil, fmt.Errorf("Genome.Write: %v", err)
+			}
+		}
+		pop, err := genetics.ReadPopulation(&buf, opts)
+		if err != nil {
+			return nil, fmt.Errorf("ReadPopulation (hand-written file): %v", err)
 		}
 		return pop, nil
 	case "read", "reread":
